@@ -338,6 +338,9 @@ func (n *RegexNode) finalOptimize() *RegexNode {
 		node := rootNode.Children[0] // skip implicit root capture node
 		atomicByAncestry := true     // the root is implicitly atomic because nothing comes after it (same for the implicit root capture)
 		for {
+			if verifGate("no-bumpalong") {
+				break
+			}
 			if node.T == NtAtomic {
 				node = node.Children[0]
 				continue
@@ -370,6 +373,9 @@ func (n *RegexNode) finalOptimize() *RegexNode {
 // to {one/notone/set}loopatomic nodes.  Such changes avoid potential useless backtracking.
 // e.g. A*B (where sets A and B don't overlap) => (?>A*)B.
 func (n *RegexNode) findAndMakeLoopsAtomic() {
+	if verifGate("no-auto-atomic") {
+		return
+	}
 	if n.Options&RightToLeft != 0 {
 		// RTL is so rare, we don't need to spend additional time/code optimizing for it.
 		return
@@ -577,6 +583,10 @@ func (n *RegexNode) reduceAtomic() *RegexNode {
 		atomic = child
 		child = atomic.Children[0]
 	}
+	if verifGate("no-atomic-alternation-rewrites") && child.T == NtAlternate {
+		child.eliminateEndingBacktracking()
+		return atomic
+	}
 
 	switch child.T {
 	// If the child is empty/nothing, there's nothing to be made atomic so the Atomic
@@ -734,6 +744,9 @@ func (n *RegexNode) makeLoopAtomic() {
 // the provided node.  That means it must be at the root of the overall expression, or
 // it must be an Atomic node that nothing will backtrack into by the very nature of Atomic.
 func (n *RegexNode) eliminateEndingBacktracking() {
+	if verifGate("no-ending-backtracking-elimination") {
+		return
+	}
 	// Walk the tree starting from the current node.
 	node := n
 	for {
@@ -879,6 +892,9 @@ func (n *RegexNode) canBeMadeAtomic(subsequent *RegexNode, iterateNullableSubseq
 		// If the current node's options don't match the subsequent node, then we cannot make it atomic.
 		// This applies to RightToLeft for lookbehinds, as well as patterns that enable/disable global flags in the middle of the pattern.
 		if n.Options != subsequent.Options {
+			return false
+		}
+		if verifGate("no-nonboundary-atomic") && (subsequent.T == NtNonboundary || subsequent.T == NtNonECMABoundary) {
 			return false
 		}
 
@@ -1051,6 +1067,9 @@ func (n *RegexNode) reduceAlternation() *RegexNode {
 // if we end up backtracking into subsequent branches.
 // e.g. abc|ade => a(?bc|de)
 func (n *RegexNode) extractCommonPrefixText() *RegexNode {
+	if verifGate("no-prefix-factoring") {
+		return n
+	}
 	// To keep things relatively simple, we currently only handle:
 	// - Left to right (e.g. we don't process alternations in lookbehinds)
 	// - Branches that are one or multi nodes, or that are concatenations beginning with one or multi nodes.
@@ -1166,6 +1185,9 @@ func (n *RegexNode) extractCommonPrefixText() *RegexNode {
 // the same across multiple contiguous branches.
 // e.g. \w12|\d34|\d56|\w78|\w90 => \w12|\d(?:34|56)|\w(?:78|90)
 func (n *RegexNode) extractCommonPrefixOneNotoneSet() *RegexNode {
+	if verifGate("no-prefix-factoring") {
+		return n
+	}
 	// Only process left-to-right prefixes.
 	if (n.Options & RightToLeft) != 0 {
 		return n
